@@ -47,7 +47,6 @@ func opsLen(tap *memConn) int {
 	return len(tap.ops)
 }
 
-
 func runC08(c *Ctx) error {
 	c.Sum.Rule = "(a) translator validation: for every synchronous write API x both roles x compression on/off x {valid call, content-rejected call, call after close, transport failing at the first write}, the sequence of transport operations observed on the real code must be the observable projection of an execution of the regenerated skeleton of that API (coq/Skel/Accept.v); (b) schedules: 2-6 goroutines using a random mix of all write APIs with tagged payloads on one connection whose transport parks every Write until released in random order: the wire must be whole frames, each message's frames contiguous, every call that reported success exactly one complete message, every rejected call none; non-trivial = all; distinct by scenario"
 	// ---- (a)
@@ -66,7 +65,7 @@ func runC08(c *Ctx) error {
 		}},
 		{"Conn_WriteClose", func(conn *gws.Conn) error { return conn.WriteClose(1000, []byte("bye")) }},
 		{"Conn_SetDeadline", func(conn *gws.Conn) error { return conn.SetDeadline(time.Time{}) }},
-		{"Conn_WriteMessage", func(conn *gws.Conn) error { return conn.WriteMessage(gws.OpcodeText, []byte{0xff}) }},             // rejected: encoding
+		{"Conn_WriteMessage", func(conn *gws.Conn) error { return conn.WriteMessage(gws.OpcodeText, []byte{0xff}) }},               // rejected: encoding
 		{"Conn_Writev", func(conn *gws.Conn) error { return conn.Writev(gws.OpcodeBinary, make([]byte, 600), make([]byte, 600)) }}, // rejected: size (limit 1000)
 	}
 	for _, server := range []bool{true, false} {
